@@ -24,7 +24,7 @@ Proof.
 Qed.
 
 Section W.
-Variable xw : list nat -> list nat.
+Variable xw : side -> list nat -> list nat.
 Local Notation pstep := (CallTree.pstep xw).
 Local Notation step := (CallTree.step xw).
 Local Notation steps := (CallTree.steps xw).
@@ -151,7 +151,7 @@ Proof.
       (* 3. the peer replies *)
       assert (Eok : o = nside k) by (symmetry; exact Eside).
       set (lo := evalkx o k (nkids k) 0) in *.
-      set (ok := cross xw (snd lo)).
+      set (ok := cross (xw (other o)) (snd lo)).
       set (f3 := send (upd f2 o {| stack := stack (f o); nseq := nseq (f2 o); inbox := [] |}) (other o) (Rep q ok)).
       assert (S3: steps (mk f2 ((l ++ [nid k]) ++ fst lo) res) (mk f3 ((l ++ [nid k]) ++ fst lo) res)).
       { apply step1 with (s:=o). unfold f3. eapply st_ret_remote.
@@ -174,7 +174,7 @@ Proof.
         eapply steps_trans; [exact S2|]. eapply steps_trans; [exact S3|exact S4].
       * fold o. rewrite F4o, F3o. reflexivity.
       * rewrite <- Eok. unfold lo. now destruct (evalkx o k (nkids k) 0).
-      * unfold ok, CallTree.seen_by. rewrite <- Eok, Eos. reflexivity.
+      * unfold ok, CallTree.seen_by. rewrite <- Eok, Eos, Hoo. reflexivity.
 Qed.
 
 Theorem node_runs : forall k, P k.
@@ -394,7 +394,7 @@ Proof.
     destruct (tok_busy _ s T) as (Qo & Is & Io); [cbn [peers mk]; rewrite E; cbn [stack]; auto|];
     cbn [peers mk] in Qo, Is, Io; rewrite E in Is; cbn [inbox] in Is; subst ib.
     destruct SOs as [A B]. assert (QK : quiet K) by (apply B; discriminate).
-    apply (tok_intro_msg _ _ _ (other s) (Rep rq (cross xw o))).
+    apply (tok_intro_msg _ _ _ (other s) (Rep rq (cross (xw (other s)) o))).
     + intros t. per_side t s; [exact A|apply SO].
     + intros t. per_side t s; auto.
     + norm_upd. now rewrite Io.
@@ -528,9 +528,9 @@ End W.
 
 (* ---- when the connection reproduces exception classes, the evaluation seen through it is the one-process evaluation ---- *)
 Section Identity.
-Variable xw : list nat -> list nat.
-Hypothesis xw_id : forall m, xw m = m.
-Lemma cross_id o : cross xw o = o.
+Variable xw : side -> list nat -> list nat.
+Hypothesis xw_id : forall t m, xw t m = m.
+Lemma cross_id t o : cross (xw t) o = o.
 Proof. destruct o as [v|[i m]]; cbn; [reflexivity|now rewrite xw_id]. Qed.
 Lemma seen_by_id s k o : seen_by xw s k o = o.
 Proof. unfold seen_by. destruct (side_eqb (nside k) s); [reflexivity|apply cross_id]. Qed.
